@@ -283,6 +283,7 @@ class SubprocessTestCaseExecutor(TestCaseExecutor):
             test_cases_tuple,
             references_bindings,
             sending_connection,
+            self._instrument,
         )
 
         process = mp.Process(
@@ -486,6 +487,7 @@ class SubprocessTestCaseExecutor(TestCaseExecutor):
         test_cases: tuple[tc.TestCase, ...],
         references_bindings: tuple[dict[int, str], ...],
         sending_connection: mp_conn.Connection,
+        instrument: bool | None = None,  # noqa: FBT001
     ) -> None:
         try:
             SubprocessTestCaseExecutor._replace_tracer(
@@ -498,6 +500,10 @@ class SubprocessTestCaseExecutor(TestCaseExecutor):
                 maximum_test_execution_timeout,
                 test_execution_time_per_statement,
             )
+
+            if instrument is not None:
+                # What set_instrument() chose for the executor of the parent process
+                executor.set_instrument(instrument)
 
             for remote_observer in remote_observers:
                 executor.add_remote_observer(remote_observer)
